@@ -61,7 +61,7 @@ def reg_access(rs):
 
 
 def _builder_ops(depth=0):
-    name = st.sampled_from(["a", "b", "c", "reg", "x0"])
+    name = st.sampled_from(["a", "b", "c", "reg", "x0", "mux", "0", "1"])
     add = st.tuples(st.just("add"), name, _reg_spec(),
                     gens.weighted((6, st.none()), (1, st.integers(0, 24)))).map(list)
     if depth >= 2:
